@@ -45,6 +45,8 @@ def cases(draw):
     everything = {}  # every node ever generated (filtered-out ones may still be shared later)
     for level in range(draw(st.sampled_from([2, 2, 3]))):
         node = draw(R._node(CFG, 2, gen, kinds=["Object"]))
+        if node.get("kind") != "Object":
+            break  # class names exhausted: the generator fell back to an untyped element
         everything.update(R.index(copy.deepcopy(node)))
         if chain:
             node["base"] = {"ref": chain[-1]["id"]}
@@ -64,6 +66,9 @@ def cases(draw):
             ]
         node = R.repair_refs(chain + [node], everything)[-1]
         chain.append(node)
+    if len(chain) < 2:
+        chain = chain + [{"id": gen.new_id(), "kind": "Object", "kw": {}, "name": "Leaf%d" % gen.next_id,
+                          "props": [], "base": {"ref": chain[-1]["id"]}}]
     idx = R.index(chain)
     flat = flat_recipe(chain, idx)
     values = draw(values_for(R.to_schema(flat, R.index(chain + [flat])), 6, 10))
